@@ -73,12 +73,6 @@ def steady_state_transport_solver(
         2D or 3D field of kinematic flux at levels or footprint.
     """
 
-    # Check cache for footprint mode
-    if cache is not None and footprint:
-        cached = cache.get(z, profiles, domain, modes, meas_pt, halo, precision)
-        if cached is not None:
-            return cached
-
     q0 = srf_flx
     p000 = srf_bg_conc
     u, v, Kx, Ky, Kz = profiles
@@ -114,6 +108,13 @@ def steady_state_transport_solver(
     # halo to deal with periodicity of FFT
     if halo is None:
         halo = max(xmx, ymx)
+
+    # Check cache for footprint mode (after the default halo is resolved, so
+    # that lookup and store use the same key)
+    if cache is not None and footprint:
+        cached = cache.get(z, profiles, domain, modes, meas_pt, halo, precision)
+        if cached is not None:
+            return cached
 
     # pad width
     px = int(halo / dx)
